@@ -141,7 +141,7 @@ PROFILES = {
         blobs=[None, None, None, BLOBS[1], BLOBS[0], BLOBS[7]], val_alphas=[0, 1, 2]),
     # C07 structure of every published version, metadata
     "C07": tree_profile(
-        6, ["STRUCT", "META"],
+        6, ["STRUCT", "META", "OPFAIL"],
         c(Ops=CORE1, MaxSeq=5),
         [sim(50, 22, MaxSeq=14, MaxTables=5, MaxHist=20, Ops=CORE1 | {"ingest"}, WriteBias=3),
          edges(20, 2000, Ops=CORE1, MaxSeq=5, MinLen=8),
